@@ -31,6 +31,10 @@ def templates():
         'sql': (b"sl += '", b"'"),
         'uq': (b's = ', b''),
         'uql': (b'sl = { a , ', b' }'),
+        # literals that are not the first thing in their input: after quoted strings and comments (the scanner's scratch buffer
+        # has been used), and followed by more
+        'uq2': (b'sl = { "first" , \'second\' } /* c1 */ # c2\ns = ', b' i = 7'),
+        'dq2': (b'sl = { "first" } // c\ns = "', b'" i = 7'),
     }
 
 
@@ -160,7 +164,7 @@ def main():
             shards.append((t, EXT, 1, 3, (a,), ENVS, dl))
     engine.phase(ck, 'quoted bodies <= 3', shard_product, shards, templates=4, environments=4, alphabet=len(EXT))
     shards = []
-    for t in ('uq', 'uql'):
+    for t in ('uq', 'uql', 'uq2'):
         for a in WORDCLS:
             shards.append((t, WORDCLS, 1, 4 if quick else 5, (a,), [b'val'], dl))
     engine.phase(ck, 'unquoted words', shard_product, shards, alphabet=len(WORDCLS))
@@ -168,10 +172,10 @@ def main():
     # substitution forms as single symbols, mixed with the characters they interact with
     ENVSYM = [b'${V}', b'${V:-d}', b'${U:-d}', b'${U}', b'${V:-}', b'${V:-a b}', b'${U:-${V}}', b'a', b'\\', b'$', b'{', b'}', b' ', b'"', b"'"]
     shards = []
-    for t in ('dq', 'sq', 'uq', 'dql', 'uql'):
+    for t in ('dq', 'sq', 'uq', 'dql', 'uql', 'uq2', 'dq2'):
         for a in ENVSYM:
             shards.append((t, ENVSYM, 1, 3, (a,), ENVS, dl))
-    engine.phase(ck, 'substitution forms ${V} ${V:-d} ${U:-d} ... as symbols, sequences <= 3, 5 templates, 4 environments', shard_product, shards,
+    engine.phase(ck, 'substitution forms ${V} ${V:-d} ${U:-d} ... as symbols, sequences <= 3, 7 templates, 4 environments', shard_product, shards,
                  alphabet=len(ENVSYM))
     # bound 2: length 4, dq and sq, all four environments
     shards = []
